@@ -48,3 +48,10 @@ Inductive stmt :=
 
 Inductive kcls := KNum | KBqm | KQm | KView.
 Inductive mname := MOp (o : bop) | MIOp (o : bop) | MROp (o : bop) | MNeg | MPos | MPow.
+
+(* the existing-label branch of cyqm add_variable (translators/qm_addvar.py -> Gen/Gen_AddVar.v):
+   which bound a comparison concerns and the guard it stands under *)
+Inductive av_bound := AvLower | AvUpper.
+Inductive av_cond :=
+| AvGiven                                 (* `if X is not None:` *)
+| AvTruthy.                               (* `if X:`  - given and non-zero *)
